@@ -114,3 +114,45 @@ fn compound_satisfies_r1_r1_light() {
     let c1 = b_sp.satisfies_bounds(&RealVectorState::new(vec![x1]));
     assert!(sp.satisfies_bounds(&p) == (c0 && c1));
 }
+
+// ---------------------------------------------------------------- C13 / C10 on concrete layouts (BOUNDED: the listed layouts and values)
+fn lattice_spaces() -> (RealVectorStateSpace, RealVectorStateSpace, SO2StateSpace) {
+    (RealVectorStateSpace::new(1, Some(vec![(-2.0, 2.0)])).unwrap(), RealVectorStateSpace::new(1, Some(vec![(-1.0e18, 1.0e18)])).unwrap(), SO2StateSpace::new(None).unwrap())
+}
+// three components R^1 x R^1 x SO(2) with unequal (also tiny) weights: the resolution follows the weighted-L2 law
+// (the sqrt model is a memoised function: equal arguments give equal results, different arguments may differ)
+#[kani::proof]
+#[kani::unwind(6)]
+#[kani::stub(f64::sqrt, sqrt_model)]
+#[kani::stub(f64::powi, powi_model)]
+fn compound_lvsl_lattice() {
+    let (a_sp, b_sp, c_sp) = lattice_spaces();
+    let ws = [[1.0, 2.0, 0.5], [1.0e-17, 1.0, 1.0], [3.0, 1.0e-17, 0.0]];
+    let wi: usize = kani::any();
+    kani::assume(wi < 3);
+    let w = ws[wi];
+    let sp = CompoundStateSpace::new(vec![Box::new(a_sp.clone()), Box::new(b_sp.clone()), Box::new(c_sp.clone())], vec![w[0], w[1], w[2]]);
+    let (l0, l1, l2) = (a_sp.get_longest_valid_segment_length(), b_sp.get_longest_valid_segment_length(), c_sp.get_longest_valid_segment_length());
+    let l = sp.get_longest_valid_segment_length();
+    assert!(l.to_bits() == sqrt_model(0.0 + (l0 * w[0]) * (l0 * w[0]) + (l1 * w[1]) * (l1 * w[1]) + (l2 * w[2]) * (l2 * w[2])).to_bits());
+}
+// interpolation is component-wise and writes EVERY component of the output state (the output starts from an unrelated state;
+// the first component does not move)
+#[kani::proof]
+#[kani::unwind(6)]
+#[kani::stub(f64::rem_euclid, rem_euclid_model)]
+fn compound_interp_lattice() {
+    let (a_sp, b_sp, c_sp) = lattice_spaces();
+    let sp = CompoundStateSpace::new(vec![Box::new(a_sp.clone()), Box::new(b_sp.clone()), Box::new(c_sp.clone())], vec![1.0, 2.0, 0.5]);
+    let mk = |x: f64, y: f64, t: f64| CompoundState::new(vec![Box::new(RealVectorState::new(vec![x])), Box::new(RealVectorState::new(vec![y])), Box::new(SO2State { value: t })]);
+    let (p, q) = (mk(1.0, -3.0, 0.5), mk(1.0, 4.0, -2.0));
+    let mut o = mk(-1.5, 7.0, 3.0);
+    sp.interpolate(&p, &q, 0.25, &mut o);
+    let mut o0 = RealVectorState::new(vec![9.0]); a_sp.interpolate(&RealVectorState::new(vec![1.0]), &RealVectorState::new(vec![1.0]), 0.25, &mut o0);
+    let mut o1 = RealVectorState::new(vec![9.0]); b_sp.interpolate(&RealVectorState::new(vec![-3.0]), &RealVectorState::new(vec![4.0]), 0.25, &mut o1);
+    let mut o2 = SO2State { value: 9.0 }; c_sp.interpolate(&SO2State { value: 0.5 }, &SO2State { value: -2.0 }, 0.25, &mut o2);
+    let g0 = (&*o.components[0] as &dyn Any).downcast_ref::<RealVectorState>().unwrap().values[0];
+    let g1 = (&*o.components[1] as &dyn Any).downcast_ref::<RealVectorState>().unwrap().values[0];
+    let g2 = (&*o.components[2] as &dyn Any).downcast_ref::<SO2State>().unwrap().value;
+    assert!(g0.to_bits() == o0.values[0].to_bits() && g1.to_bits() == o1.values[0].to_bits() && g2.to_bits() == o2.value.to_bits());
+}
